@@ -226,12 +226,19 @@ def _design_classes(ctx, order, cut, dt):
     ctx.cls("wn_lo<0.01" if lo < 0.01 else ("wn_lo<0.1" if lo < 0.1 else "wn_lo>=0.1"))
 
 
-def _filtered(ctx, values, dt, cut_arg, kwargs, no_cut=False):
+def _filtered(ctx, values, dt, cut_arg, kwargs, no_cut=False, relaxed=False):
+    """Filter a copy of `values` through Signal.butter_pass; asserts length / npts / dt.  relaxed (known finding C17-KF1 only):
+    scipy refusing the ill-conditioned (b, a) design ('Filter not stable due to sum(a) == 0') is part of the finding -> None."""
     s = ctx.lib(eqsig.Signal, values, dt)
-    if no_cut:
-        ctx.lib(s.butter_pass, **kwargs)
+    args = () if no_cut else (cut_arg,)
+    if relaxed:
+        try:
+            s.butter_pass(*args, **kwargs)
+        except ValueError:
+            ctx.cls("guarded-raises")
+            return None
     else:
-        ctx.lib(s.butter_pass, cut_arg, **kwargs)
+        ctx.lib(s.butter_pass, *args, **kwargs)
     out = np.asarray(s.values)
     ctx.shape(out, (len(values),), "filtered values")
     ctx.check(s.npts == len(values), "npts %r after filtering a record of %d samples" % (s.npts, len(values)))
@@ -315,16 +322,18 @@ def butter_gain(case, ctx):
     if gibbs is not None:
         ctx.cls("extra=%d" % extra)
     kwargs = _butter_kwargs(order, gibbs, extra, call)
-    y = _filtered(ctx, x, dt, _cut_arg(cut, case["container"]), kwargs, no_cut=(call == "default-cut"))
     cond = conditioning(order, cut, dt)
     ctx.notes["u*kappa"] = U * cond["kappa"]
     guarded = not cond["ok"]
     if guarded:
         ctx.cls("guarded")
         if ctx.kf("C17-KF1"):
-            return  # known finding: (b, a) form ill-conditioned for this design; only length / npts / dt (asserted above)
+            # known finding: (b, a) form ill-conditioned for this design; only length / npts / dt (asserted inside _filtered)
+            _filtered(ctx, x, dt, _cut_arg(cut, case["container"]), kwargs, relaxed=True)
+            return
     else:
         ctx.nt()
+    y = _filtered(ctx, x, dt, _cut_arg(cut, case["container"]), kwargs, no_cut=(call == "default-cut"))
     lo, hi = n // 3, (2 * n) // 3
     ctx.finite(y[lo:hi], "filtered sinusoid (middle third)")
     ctx.close(y[lo:hi], g * x[lo:hi], GAIN_TOL * amp,
@@ -380,16 +389,18 @@ def butter_linear(case, ctx):
     kwargs = _butter_kwargs(order, gibbs, extra)
     cut_arg = _cut_arg(cut, case.get("container", "tuple"))
     x0, y0 = x.copy(), y.copy()
+    cond = conditioning(order, cut, dt)
+    if not cond["ok"]:
+        ctx.cls("guarded")
+        if ctx.kf("C17-KF1"):
+            for rec in (x, y, al * x + be * y):
+                _filtered(ctx, rec, dt, cut_arg, kwargs, relaxed=True)
+            return
     fx = _filtered(ctx, x, dt, cut_arg, kwargs)
     fy = _filtered(ctx, y, dt, cut_arg, kwargs)
     fc = _filtered(ctx, al * x + be * y, dt, cut_arg, kwargs)
     ctx.equal(x, x0, "record modified by Signal(...).butter_pass")
     ctx.equal(y, y0, "record modified by Signal(...).butter_pass")
-    cond = conditioning(order, cut, dt)
-    if not cond["ok"]:
-        ctx.cls("guarded")
-        if ctx.kf("C17-KF1"):
-            return
     scale = abs(al) * float(np.max(np.abs(x))) + abs(be) * float(np.max(np.abs(y)))
     ctx.nt(bool(cond["ok"] and np.any(x != 0) and np.any(y != 0)))
     ctx.finite(fc, "filtered combination")
